@@ -11,6 +11,7 @@ import ast
 from typing import Dict, FrozenSet, List, Optional, Set, Tuple
 
 from ..core import astq
+from ..core.inline import clone
 from ..core.cfg import CFG, Node
 from ..core.program import enclosing_stmt, AnalysisError, FunctionInfo, Program, ancestors, norm, short, walk_function
 from ..engines.schema import Schema, path_of
@@ -339,39 +340,110 @@ def check_final(prog: Program, res: Result) -> None:
                f"after trainer.fit a path reaches the {label} without saving the final training_config.yaml: "
                f"{cfg.path_str(w) if w else ''}", f"{fi.module.relpath}:{fit.lineno}",
                derivation={"path": cfg.path_str(w)} if w else None, sample={"cfg": cfg.stats(), "save_sites": len(saves)})
-    # chunk deletion is attempted in the same finally, after the save
+    # chunk deletion is attempted in the same finally: for either chunk framework, with deletion requested, a walk of the
+    # finally block (tests on the framework / the flag decided by the scenario, `.exists()` taken as true, loops over
+    # literal sequences unrolled, locals substituted) removes the train AND the val directory of that framework.
     rms = [c for c, q in prog.calls_in(fi) if q == "shutil.rmtree"]
-    for c in rms:
-        guards = [a for a in ancestors(c) if isinstance(a, ast.If)]
-        flag = any("delete_chunks_after_training" in norm(g.test) for g in guards)
-        res.ob("C19-delete", id(c) in fin_ids and flag, fi.qualname, f"{short(c, 70)}",
-               "chunk deletion is not inside the finally of train() under the delete_chunks_after_training flag",
-               f"{fi.module.relpath}:{c.lineno}")
-    want = {"self.train_np_chunks_path", "self.val_np_chunks_path", "self.train_litdata_chunks_path", "self.val_litdata_chunks_path"}
+    res.ob("C19-delete", bool(rms) and all(id(c) in fin_ids for c in rms), fi.qualname, "chunk directories are removed in the finally of train()",
+           "chunk deletion is not inside the finally of train()", fi.where)
+    DIRS = {"torch_dataset_np_chunks": {"self.train_np_chunks_path", "self.val_np_chunks_path"},
+            "litdata": {"self.train_litdata_chunks_path", "self.val_litdata_chunks_path"}}
+    allw = set().union(*DIRS.values())
 
-    def _targets(c: ast.Call) -> Set[str]:
-        """The directories a rmtree call may remove: its path argument, with a loop variable ranging over a literal
-        tuple/list of paths replaced by each of them."""
-        arg = astq.call_arg(c, 0, "path")
-        texts = [norm(astq.expand_at(fn, arg, enclosing_stmt(c)))] if arg is not None else []
-        for lp in astq.enclosing_loops(c):
-            if isinstance(lp, ast.For) and isinstance(lp.target, ast.Name) and isinstance(lp.iter, (ast.Tuple, ast.List)) and arg is not None and lp.target.id in astq.names_in(arg):
-                texts = [norm(astq.expand_at(fn, e, lp)) for e in lp.iter.elts]
-        return {w for w in want for t in texts if w in t}
+    def _walk(stmts, fw, flag):
+        must: Set[str] = set()
+        may: Set[str] = set()
 
-    tg = {id(c): _targets(c) for c in rms}
-    got = set().union(*tg.values()) if tg else set()
-    res.ob("C19-delete", got == want, fi.qualname, "train and val chunk dirs of both chunk frameworks are removed",
-           f"chunk directories never deleted: {sorted(want - got)}", fi.where)
-    # guards pair the framework with its own directories
-    for c in rms:
-        guards = [a for a in ancestors(c) if isinstance(a, ast.If) and "data_pipeline_fw" in norm(a.test)]
-        if guards:
-            fw = "litdata" if "litdata" in norm(guards[-1].test) else ("np_chunks" if "np_chunks" in norm(guards[-1].test) else "?")
-            ok = bool(tg[id(c)]) and all((fw == "litdata") == ("litdata" in t) for t in tg[id(c)])
-            res.ob("C19-delete", ok, fi.qualname, f"deletion under the guard of its own framework: {short(c, 50)}",
-                   f"directory removed under the guard of the other data framework ({short(guards[-1].test, 60)})",
-                   f"{fi.module.relpath}:{c.lineno}")
+        def sub(e, env):
+            from ..core.astq import _SubstNames
+            for _ in range(4):
+                e = _SubstNames(env).visit(clone(e))
+            return e
+
+        def truth(t, env):
+            t = sub(t, env)
+            if isinstance(t, ast.BoolOp):
+                vs = [truth(v, env) for v in t.values]
+                if isinstance(t.op, ast.And):
+                    return False if any(v is False for v in vs) else (True if all(v is True for v in vs) else None)
+                return True if any(v is True for v in vs) else (False if all(v is False for v in vs) else None)
+            if isinstance(t, ast.UnaryOp) and isinstance(t.op, ast.Not):
+                v = truth(t.operand, env)
+                return None if v is None else (not v)
+            txt = norm(t)
+            if txt.endswith("delete_chunks_after_training"):
+                return flag
+            if isinstance(t, ast.Call) and isinstance(t.func, ast.Attribute) and t.func.attr in ("exists", "is_dir") and not t.args:
+                return True
+            if isinstance(t, ast.Compare) and len(t.ops) == 1 and norm(t.left) == "self.data_pipeline_fw":
+                op, r = t.ops[0], t.comparators[0]
+                if isinstance(op, (ast.Eq, ast.NotEq)) and isinstance(r, ast.Constant):
+                    return (fw == r.value) if isinstance(op, ast.Eq) else (fw != r.value)
+                if isinstance(op, (ast.In, ast.NotIn)) and isinstance(r, (ast.Tuple, ast.List, ast.Set)) and all(isinstance(x, ast.Constant) for x in r.elts):
+                    v = fw in [x.value for x in r.elts]
+                    return v if isinstance(op, ast.In) else (not v)
+            return None
+
+        def run(block, env, sure):
+            """returns False when the block certainly returned."""
+            for st in block:
+                if isinstance(st, ast.If):
+                    v = truth(st.test, env)
+                    if v is True:
+                        if run(st.body, env, sure) is False:
+                            return False
+                    elif v is False:
+                        if run(st.orelse, env, sure) is False:
+                            return False
+                    else:
+                        e1, e2 = dict(env), dict(env)
+                        run(st.body, e1, False)
+                        run(st.orelse, e2, False)
+                        for k_ in set(e1) | set(e2):
+                            if k_ in e1 and k_ in e2 and norm(e1[k_]) == norm(e2[k_]):
+                                env[k_] = e1[k_]
+                            else:
+                                env.pop(k_, None)
+                elif isinstance(st, ast.For):
+                    it = sub(st.iter, env)
+                    if isinstance(it, (ast.Tuple, ast.List)) and isinstance(st.target, ast.Name):
+                        for el in it.elts:
+                            e2 = dict(env)
+                            e2[st.target.id] = el
+                            run(st.body, e2, sure)
+                    else:
+                        run(st.body, dict(env), False)
+                elif isinstance(st, (ast.With, ast.Try)):
+                    run(st.body, env, sure if isinstance(st, ast.With) else False)
+                    if isinstance(st, ast.Try):
+                        run(st.finalbody, env, sure)
+                elif isinstance(st, ast.Return):
+                    return False
+                else:
+                    if isinstance(st, ast.Assign) and len(st.targets) == 1 and isinstance(st.targets[0], ast.Name):
+                        env[st.targets[0].id] = sub(st.value, env)
+                    for c in ast.walk(st):
+                        if isinstance(c, ast.Call) and norm(c.func).split(".")[-1] == "rmtree":
+                            arg = astq.call_arg(c, 0, "path")
+                            txt = norm(sub(arg, env)) if arg is not None else ""
+                            hit = {w for w in allw if w in txt}
+                            may.update(hit)
+                            if sure:
+                                must.update(hit)
+            return True
+
+        run(stmts, {}, True)
+        return must, may
+
+    fin = tr.finalbody if tr is not None else []
+    for fw, dirs in DIRS.items():
+        must, may = _walk(fin, fw, True)
+        res.ob("C19-delete", dirs <= must, fi.qualname, f"{fw} + delete_chunks_after_training: train and val chunk dirs are removed",
+               f"with data_pipeline_fw={fw!r} and delete_chunks_after_training set, the finally block does not remove {sorted(dirs - must)} "
+               f"(removed for sure: {sorted(must)}; possibly: {sorted(may - must)})", fi.where, sample={"framework": fw, "removed": sorted(must)})
+        other = allw - dirs
+        res.ob("C19-delete", not (must & other), fi.qualname, f"{fw}: only its own chunk dirs are removed",
+               f"with data_pipeline_fw={fw!r} the finally block removes the other framework's directories {sorted(must & other)}", fi.where)
     res.floor("C19-delete", 3)
 
 
